@@ -254,3 +254,14 @@ Example option_edit_examples :
 Proof.
   repeat split; vm_compute; reflexivity.
 Qed.
+
+(* remove_nth_option on ' METHOD=1 INTER METH=2': key METHOD matches the options METHOD and METH (prefix rule) *)
+From PV Require Import C03.Proofs7.
+Example remove_nth_examples :
+  let ch := opt_est ++ [Tok 1 None (T " "); Tree 10 None [Tok 11 None (T "METH"); Tok 13 None (T "="); Tok 12 None (T "2")]] in
+  nmatches 10 11 (T "METHOD") ch = 2 /\
+  option_map (flat_map str) (remove_nth_option 10 11 1 ch (T "METHOD") 0) = Some (T " INTER METH=2") /\
+  option_map (flat_map str) (remove_nth_option 10 11 1 ch (T "METHOD") 1) = Some (T " METHOD=1 INTER") /\
+  remove_nth_option 10 11 1 ch (T "METHOD") 2 = Some ch /\
+  forallb (fun nd => match nth_match 10 11 (T "METHOD") nd with Some _ => true | None => false end) ch = true.
+Proof. repeat split; vm_compute; reflexivity. Qed.
